@@ -671,9 +671,10 @@ func (s *Sim) Step() error {
 				return err
 			}
 		}
+		before := s.readBeforeEvm(bt)
 		d := s.node.Deliver(bt.Spec.Type, bt.Bytes)
 		if d.Panic == "" {
-			s.observeEvm(bt, d)
+			s.observeEvm(bt, d, before)
 		}
 		b.Txs = append(b.Txs, bt)
 		o.Delivers = append(o.Delivers, d)
@@ -963,7 +964,35 @@ func (s *Sim) genEvmTx(deploy bool) *TxSpec {
 
 // observeEvm reads, right after a delivery that may have gone through the EVM, the balances and
 // nonces of all watched accounts: the observed effect the model's EVM oracle is given
-func (s *Sim) observeEvm(bt *Built, d DeliverObs) {
+// readBeforeEvm: balances and nonces of the watched accounts (and of the address a deployment would
+// create) right before a delivery that may go through the EVM; nil for other transactions
+func (s *Sim) readBeforeEvm(bt *Built) map[string]AcctObs {
+	t := bt.Spec
+	evm := t.Type == 6
+	for _, c := range s.contracts {
+		if string(c) == string(t.To) {
+			evm = true
+		}
+	}
+	if !evm {
+		return nil
+	}
+	out := map[string]AcctObs{}
+	ac := s.node.App.VerifAcctCtrler()
+	addrs := append([][]byte(nil), s.H.WatchA...)
+	if t.Type == 6 && isZero(t.To) && len(t.From) == 20 {
+		created := ethcrypto.CreateAddress(common.BytesToAddress(t.From), t.Nonce)
+		addrs = append(addrs, created[:])
+	}
+	for _, a := range addrs {
+		if acct := ac.FindAccount(a, true); acct != nil {
+			out[string(a)] = AcctObs{Addr: a, Bal: acct.GetBalance().Dec(), Nonce: acct.GetNonce()}
+		}
+	}
+	return out
+}
+
+func (s *Sim) observeEvm(bt *Built, d DeliverObs, before map[string]AcctObs) {
 	t := bt.Spec
 	isContractTo := false
 	for _, c := range s.contracts {
@@ -988,6 +1017,39 @@ func (s *Sim) observeEvm(bt *Built, d DeliverObs) {
 				e.Accts = append(e.Accts, AcctObs{Addr: a, Bal: acct.GetBalance().Dec(), Nonce: acct.GetNonce()})
 			}
 		}
+		e.Pure = pureJudgement(before, e, t, d.GasUsed)
 	}
 	bt.Evm = e
+}
+
+// pureJudgement: the effect contract judged on the node's own values before and after the
+// transaction (independent of the model's state): "" when it holds, else what is wrong, in words
+func pureJudgement(before map[string]AcctObs, e *EvmEffect, t *TxSpec, gasUsed int64) string {
+	if before == nil {
+		return ""
+	}
+	out := ""
+	sum := new(big.Int)
+	for _, x := range e.Accts {
+		after, _ := new(big.Int).SetString(x.Bal, 10)
+		sum.Add(sum, after)
+		if b0, ok := before[string(x.Addr)]; ok {
+			bb, _ := new(big.Int).SetString(b0.Bal, 10)
+			sum.Sub(sum, bb)
+		}
+		if string(x.Addr) == string(t.From) {
+			if b0, ok := before[string(x.Addr)]; !ok || x.Nonce != b0.Nonce+1 {
+				out += fmt.Sprintf("sender nonce %d -> %d; ", b0.Nonce, x.Nonce)
+			}
+		}
+	}
+	price, _ := new(big.Int).SetString(t.GasPrice, 10)
+	if price == nil {
+		price = new(big.Int)
+	}
+	sum.Add(sum, new(big.Int).Mul(big.NewInt(gasUsed), price))
+	if sum.Sign() != 0 {
+		out += fmt.Sprintf("touched accounts changed by %s beyond -gasUsed*price; ", sum.String())
+	}
+	return out
 }
